@@ -299,6 +299,8 @@ pub enum P {
     Cmd { name: String, shorts: Vec<char>, longs: Vec<String>, inner: Box<Opts>, adjacent: bool, help: Option<DocSpec> },
     Seq(Vec<P>),
     Alt(Vec<P>),
+    /// the run-time `bpaf::choice([..])` function instead of `construct!([..])`
+    Choice(Vec<P>),
     /// `construct!(a, b, ..).adjacent()`
     Adj(Vec<P>),
     Optional(Box<P>, bool),
@@ -394,7 +396,7 @@ impl P {
     }
     pub fn children(&self, f: &mut dyn FnMut(&P)) {
         match self {
-            P::Seq(v) | P::Alt(v) | P::Adj(v) => v.iter().for_each(|x| f(x)),
+            P::Seq(v) | P::Alt(v) | P::Choice(v) | P::Adj(v) => v.iter().for_each(|x| f(x)),
             P::Cmd { inner, .. } => f(&inner.p),
             P::Optional(p, _) | P::Many(p, _) | P::Some_(p, _) | P::Collect(p, _) | P::Count(p) | P::Last(p) | P::Fallback(p, _, _) | P::FallbackWith(p, _) | P::Guard(p, _) | P::Parse(p, _) | P::Map(p, _) | P::Hide(p) | P::HideUsage(p) | P::CustomUsage(p, _) | P::GroupHelp(p, _) | P::WithGroupHelp(p, _) | P::Complete(p, _, _) | P::CompleteShell(p, _) => f(p),
             _ => {}
@@ -631,6 +633,7 @@ pub fn build_p(p: &P) -> BP {
         P::Seq(v) => seq(v.iter().map(build_p).collect(), false),
         P::Adj(v) => seq(v.iter().map(build_p).collect(), true),
         P::Alt(v) => alt(v.iter().map(build_p).collect()),
+        P::Choice(v) => bpaf::choice(v.iter().map(build_p).collect::<Vec<_>>()).boxed(),
         P::Optional(p, catch) => {
             let o = build_p(p).optional();
             if *catch {
